@@ -38,6 +38,8 @@ async fn verif_replay() {
     let mut topics: HashMap<String, Arc<Topic>> = HashMap::new();
     let mut subs: HashMap<String, Arc<Subscription>> = HashMap::new();
     let mut next_data: u64 = 1;
+    let mut deadlines: HashMap<u64, tokio::time::Instant> = HashMap::new();
+    let t_start = tokio::time::Instant::now();
     for op in script["ops"].as_array().unwrap() {
         let name = op["op"].as_str().unwrap();
         match name {
@@ -100,8 +102,12 @@ async fn verif_replay() {
                 let s = subs.get(op["sub"].as_str().unwrap()).unwrap();
                 let max = op["max"].as_u64().unwrap() as u16;
                 let r = s.pull_messages(max).await.unwrap();
+                for m in r.iter() {
+                    deadlines.insert(m.ack_id().to_string().parse::<u64>().unwrap(), m.deadline().time());
+                }
                 obs(json!({"op": name, "messages": r.iter().map(|m| json!({"data": data_id(m), "ack": m.ack_id().to_string(),
-                    "message_id": m.message().id.value})).collect::<Vec<_>>() }));
+                    "message_id": m.message().id.value,
+                    "deadline_ms": m.deadline().time().duration_since(t_start).as_millis() as u64})).collect::<Vec<_>>() }));
             }
             "ack" => {
                 let s = subs.get(op["sub"].as_str().unwrap()).unwrap();
@@ -113,10 +119,15 @@ async fn verif_replay() {
                 let s = subs.get(op["sub"].as_str().unwrap()).unwrap();
                 let now = tokio::time::Instant::now();
                 let mods = op["mods"].as_array().unwrap().iter().map(|m| {
-                    let id = AckId::new(m["id"].as_u64().unwrap());
+                    let idv = m["id"].as_u64().unwrap();
+                    let id = AckId::new(idv);
                     match m["secs"].as_u64() {
                         Some(0) | None => DeadlineModification::nack(id),
-                        Some(n) => DeadlineModification::new(id, AckDeadline::new(&(now + Duration::from_secs(n)))),
+                        Some(n) => {
+                            let d = AckDeadline::new(&(now + Duration::from_secs(n)));
+                            deadlines.insert(idv, d.time());
+                            DeadlineModification::new(id, d)
+                        }
                     }
                 }).collect();
                 let r = s.modify_ack_deadlines(mods).await;
@@ -126,6 +137,28 @@ async fn verif_replay() {
                 let ms = op["ms"].as_u64().unwrap();
                 tokio::time::advance(Duration::from_millis(ms)).await;
                 // let the actors run
+                for _ in 0..20 { tokio::task::yield_now().await; }
+                obs(json!({"op": name}));
+            }
+            "advance_abs_ms" => {
+                let target = t_start + Duration::from_millis(op["ms"].as_u64().unwrap());
+                let now = tokio::time::Instant::now();
+                if target > now {
+                    tokio::time::advance(target - now).await;
+                }
+                for _ in 0..20 { tokio::task::yield_now().await; }
+                obs(json!({"op": name}));
+            }
+            "advance_to_deadline" => {
+                // move the paused clock exactly to the recorded deadline of a delivery (+ offset_ms, may be negative)
+                let id = op["ack"].as_u64().unwrap();
+                let off = op["offset_ms"].as_i64().unwrap_or(0);
+                let target = deadlines[&id];
+                let now = tokio::time::Instant::now();
+                let target = if off >= 0 { target + Duration::from_millis(off as u64) } else { target - Duration::from_millis((-off) as u64) };
+                if target > now {
+                    tokio::time::advance(target - now).await;
+                }
                 for _ in 0..20 { tokio::task::yield_now().await; }
                 obs(json!({"op": name}));
             }
@@ -149,4 +182,55 @@ async fn verif_replay() {
             other => panic!("unknown op {}", other),
         }
     }
+}
+
+// Library-level scenarios selected by $VERIF_LIB_SCENARIO.
+#[tokio::test]
+async fn verif_lib_scenario() {
+    let scenario = match std::env::var("VERIF_LIB_SCENARIO") {
+        Ok(s) => s,
+        Err(_) => return,
+    };
+    match scenario.as_str() {
+        "create_subscription_abandoned" => create_subscription_abandoned().await,
+        other => panic!("unknown scenario {}", other),
+    }
+}
+
+// F5: CreateSubscription abandoned while the attach request cannot be enqueued (topic mailbox full).
+async fn create_subscription_abandoned() {
+    let topic_manager = Arc::new(TopicManager::new());
+    let subscription_manager = Arc::new(SubscriptionManager::new(Default::default()));
+    let topic = topic_manager.create_topic(TopicName::try_parse("projects/p/topics/t").unwrap()).unwrap();
+    // Saturate the topic's mailbox (capacity 16): on this single-threaded runtime the topic actor does not
+    // run until we yield, so 16 requests polled once each fill it.
+    let mut fillers = Vec::new();
+    for _ in 0..16 {
+        let t = topic.clone();
+        let mut f = Box::pin(async move { t.list_subscriptions(deltio::paging::Paging::new(10, None)).await.map(|p| p.subscriptions.len()) });
+        let polled = ::futures::poll!(f.as_mut());
+        assert!(polled.is_pending());
+        fillers.push(f);
+    }
+    // One poll of create_subscription, then the caller goes away.
+    let name = SubscriptionName::try_parse("projects/p/subscriptions/s").unwrap();
+    let info = SubscriptionInfo::new(name.clone(), Duration::from_secs(10), None);
+    let abandoned = subscription_manager.create_subscription(info, topic.clone()).now_or_never();
+    // Let every actor run and every filler complete.
+    for f in fillers.iter_mut() {
+        let _ = f.as_mut().await;
+    }
+    for _ in 0..50 { tokio::task::yield_now().await; }
+    let registered = subscription_manager.get_subscription(&name).is_ok();
+    let attached: Vec<String> = topic.list_subscriptions(deltio::paging::Paging::new(10, None)).await.unwrap()
+        .subscriptions.iter().map(|s| s.name.to_string()).collect();
+    // does a publish reach it?
+    topic.publish_messages(vec![TopicMessage::new(Bytes::from("x"), None)]).await.unwrap();
+    for _ in 0..50 { tokio::task::yield_now().await; }
+    let backlog = match subscription_manager.get_subscription(&name) {
+        Ok(s) => s.get_stats().await.map(|st| st.backlog_messages_count as i64).unwrap_or(-1),
+        Err(_) => -1,
+    };
+    obs(json!({"scenario": "create_subscription_abandoned", "completed_in_one_poll": abandoned.is_some(),
+               "registered": registered, "attached": attached, "backlog_after_publish": backlog}));
 }
